@@ -532,7 +532,7 @@ class Sim:
             lp.close()
         except Exception:
             pass
-        asyncio.set_event_loop(None)
+        asyncio.set_event_loop(decoy_loop())
         _aio_events._set_running_loop(None)
         self.keep.clear()
 
@@ -675,8 +675,22 @@ def install(someip_sd):
     warnings.simplefilter("ignore")
 
 
+_DECOY = None
+
+
+def decoy_loop():
+    """what `asyncio.get_event_loop()` returns while the system is being constructed: a loop that never runs (an
+    application that builds its objects before `asyncio.run()`). Code that captures the loop at construction instead of
+    using the running loop puts its timers on this one, where they never fire."""
+    global _DECOY
+    if _DECOY is None or _DECOY.is_closed():
+        _DECOY = asyncio.new_event_loop()
+    return _DECOY
+
+
 def new_sim(seed, cfg=None):
     sim = Sim(seed, cfg)
     RAND.sim = sim
     SWALLOW.sim = sim
+    asyncio.set_event_loop(decoy_loop())
     return sim
